@@ -154,10 +154,20 @@ def _surface_names(fn, bi, cache):
         elif isinstance(node, list):
             for v in node:
                 scan(v)
-    b = fn.blocks[bi]
-    for st in b["s"]:
-        scan(st.get("rv"))
-    scan({k: v for k, v in b["t"].items() if k not in ("dest",)})
+    # the block itself and the straight-line blocks leading to it (overflow assertions split one expression over blocks)
+    preds = fn.preds()
+    cur, chain = bi, [bi]
+    for _ in range(4):
+        ps = [p for p, _l in preds.get(cur, []) if p in fn.live]
+        if len(ps) != 1 or len(fn.succ[ps[0]]) != 1:
+            break
+        cur = ps[0]
+        chain.append(cur)
+    for bj in chain:
+        b = fn.blocks[bj]
+        for st in b["s"]:
+            scan(st.get("rv"))
+        scan({k: v for k, v in b["t"].items() if k not in ("dest",)})
     cache[bi] = names
     return names
 
@@ -237,7 +247,8 @@ def structural(s, fn=None):
     """spelling-independent summary of a Rust atom: relation, field and constant names and callees after expansion,
     constants - no names of locals or parameters"""
     fields, cnames, calls, consts = set(), set(), set(), set()
-    for x in mir.walk(s.atom):
+    parts = [x for part in s.atom[1:] if isinstance(part, tuple) for x in mir.walk(part)]
+    for x in parts:
         if not isinstance(x, tuple) or not x:
             continue
         t = x[0]
@@ -392,7 +403,14 @@ def check(ck, P, rule, only=None):
         have = rust_callee_names(allf)
         for cc in table.get("calls", {}).get(key, []):
             n += 1
-            ck.decide(bool(call_candidates(cc) & have), rule, "%s:calls:%s" % (cname, cc), "counterpart call present",
+            ok_call = bool(call_candidates(cc) & have)
+            if not ok_call:
+                # the callee was a function of the reference tree that has since been inlined into this caller
+                from . import inline
+                for kp in inline.table().get("fns", []):
+                    if kp.split("::")[-1].lower() in call_candidates(cc) and kp not in P.fns and any(f.path in inline.frozen_callers(kp) for f in fns):
+                        ok_call = True
+            ck.decide(ok_call, rule, "%s:calls:%s" % (cname, cc), "counterpart call present",
                       "zlib-ng's %s calls %s; %s no longer calls its counterpart (%s) - a different helper (for instance the variant that "
                       "keeps part of the state) changes what the function does for its reference's callers"
                       % (cname, cc, ", ".join(f.path.replace(Z, "") for f in fns), "/".join(sorted(call_candidates(cc)))), where(fns[0]))
